@@ -149,69 +149,87 @@ Definition value_of (dl : str) (mixed : bool) (dwsp : bool) (delim_seen : bool) 
 Definition last_line_is (s : pstate) (line : N) : bool :=
   match p_rev s with e :: _ => e_line e + 1 =? line | [] => false end.
 
+Definition bump (s : pstate) : pstate :=
+  mkPS (p_rev s) (p_groups s) (p_cur s) (p_cbk s) (p_cav s) (p_line s + 1).
+
+Definition with_cav (s : pstate) (cav : option str) : pstate :=
+  mkPS (p_rev s) (p_groups s) (p_cur s) (p_cbk s) cav (p_line s).
+
+(* the raw copy of a continuation line as it is appended to the last value *)
+Definition cont_text (o : popts) (cm org : str) : str :=
+  removelast_nl (if o_python o then org else cut_at_comments cm org).
+
+(* "key delimiter value" lines and continuation lines; [vis] is the line from
+   its first non-blank byte, trailing comment removed; [s] has the line number
+   of this line *)
+Definition parse_kv (o : popts) (dl cm : str) (s : pstate) (org : str) (b0 : byte) (vis : str) : presult :=
+  let line := p_line s in
+  let k := take_while (fun x => negb (key_stop dl x)) vis in
+  let rest := skipn (length k) vis in
+  let mixed := is_mixed dl in
+  let cut := match k, rest with _ :: _, _ :: _ => true | _, _ => false end in
+  let sep := hd 0 rest in
+  let delim_seen := cut && (if mixed then negb (isspace sep) && mem sep dl else mem sep dl) in
+  let data := if cut then tl rest else rest in
+  let key := if cut then k else vis in
+  let continuation :=
+    if mixed then false
+    else
+      let found :=
+        if negb (o_python o) || negb (isspace b0) then
+          delim_seen || existsb (fun x => mem x dl) data
+        else false in
+      negb found && last_line_is s line in
+  if continuation then
+    PCont (store_append (o_python o) s (cont_text o cm org) line)
+  else
+    match k with
+    | [] => PCont s                       (* !*name || data == name *)
+    | _ =>
+      match value_of dl mixed (has_wsp dl) delim_seen data with
+      | inl e => PStop e s
+      | inr (v, q) => PCont (store_new s key v line q)
+      end
+    end.
+
+(* a line that is not blank and not a comment line; [name]: from the first
+   non-blank byte on *)
+Definition parse_entry (o : popts) (dl cm : str) (s : pstate) (org : str) (b0 : byte) (name : str) : presult :=
+  let line := p_line s in
+  let '(nm, di, cav) :=
+    if o_python o then (name, None, p_cav s)
+    else fold_left (fun st c => comment_step dl c st) cm (name, None, p_cav s) in
+  let s := with_cav s cav in
+  let vis := cstr nm in
+  match vis with
+  | 91 :: rest => section_line s rest line
+  | _ =>
+    if keys_only dl then
+      PCont (store_new s vis (option_map (fun i => cstr (skipn i nm)) di) line false)
+    else parse_kv o dl cm s org b0 vis
+  end.
+
+(* a line of blanks only *)
+Definition parse_blanks (o : popts) (dl cm : str) (s : pstate) (org : str) : presult :=
+  let line := p_line s in
+  if keys_only dl then PCont (store_new s [] None line false)
+  else if is_mixed dl then PCont s
+  else if last_line_is s line then PCont (store_append (o_python o) s (cont_text o cm org) line)
+  else PCont s.
+
 Definition parse_line (o : popts) (dl cm : str) (s0 : pstate) (raw : str) : presult :=
   let org := cstr raw in
-  let line := p_line s0 + 1 in
-  let s := mkPS (p_rev s0) (p_groups s0) (p_cur s0) (p_cbk s0) (p_cav s0) line in
-  let buf := removelast_nl org in
-  match buf with
+  let s := bump s0 in
+  match removelast_nl org with
   | [] => PCont s
-  | b0 :: _ =>
-    let name := drop_while isspace buf in
-    match name with
+  | b0 :: buf' =>
+    match drop_while isspace (b0 :: buf') with
     | c :: ctext =>
       if mem c cm then
         (* a comment line, whatever it contains *)
-        PCont (mkPS (p_rev s) (p_groups s) (p_cur s) (append_opt (p_cbk s) ctext) (p_cav s) line)
-      else
-        let '(nm, di, cav) :=
-          if o_python o then (name, None, p_cav s)
-          else fold_left (fun st c => comment_step dl c st) cm (name, None, p_cav s) in
-        let s := mkPS (p_rev s) (p_groups s) (p_cur s) (p_cbk s) cav line in
-        let vis := cstr nm in
-        match vis with
-        | 91 :: rest => section_line s rest line
-        | _ =>
-          if keys_only dl then
-            PCont (store_new s vis (option_map (fun i => cstr (skipn i nm)) di) line false)
-          else
-            let k := take_while (fun x => negb (key_stop dl x)) vis in
-            let rest := skipn (length k) vis in
-            let mixed := is_mixed dl in
-            let cut := match k, rest with _ :: _, _ :: _ => true | _, _ => false end in
-            let sep := hd 0 rest in
-            let delim_seen := cut && (if mixed then negb (isspace sep) && mem sep dl else mem sep dl) in
-            let data := if cut then tl rest else rest in
-            let key := if cut then k else vis in
-            let continuation :=
-              if mixed then false
-              else
-                let found :=
-                  if negb (o_python o) || negb (isspace b0) then
-                    delim_seen || existsb (fun x => mem x dl) data
-                  else false in
-                negb found && last_line_is s line in
-            if continuation then
-              let o1 := if o_python o then org else cut_at_comments cm org in
-              PCont (store_append (o_python o) s (removelast_nl o1) line)
-            else
-              match k with
-              | [] => PCont s                       (* !*name || data == name *)
-              | _ =>
-                match value_of dl mixed (has_wsp dl) delim_seen data with
-                | inl e => PStop e s
-                | inr (v, q) => PCont (store_new s key v line q)
-                end
-              end
-        end
-    | [] =>
-      (* blanks only *)
-      if keys_only dl then PCont (store_new s [] None line false)
-      else if is_mixed dl then PCont s
-      else if last_line_is s line then
-        let o1 := if o_python o then org else cut_at_comments cm org in
-        PCont (store_append (o_python o) s (removelast_nl o1) line)
-      else PCont s
+        PCont (mkPS (p_rev s) (p_groups s) (p_cur s) (append_opt (p_cbk s) ctext) (p_cav s) (p_line s))
+      else parse_entry o dl cm s org b0 (c :: ctext)
+    | [] => parse_blanks o dl cm s org
     end
   end.
 
